@@ -569,7 +569,12 @@ func c08Crash(c *core.Ctx, res *core.Result) {
 		return
 	}
 	marker := []byte(fmt.Sprintf("after-recovery-%d", c.Idx))
-	if err := eng.Put([]byte("zz-marker"), marker); err != nil {
+	err = eng.Put([]byte("zz-marker"), marker)
+	for try := 0; try < 5 && kv.IsEngineBusy(err); try++ {
+		time.Sleep(50 * time.Millisecond)
+		err = eng.Put([]byte("zz-marker"), marker)
+	}
+	if err != nil {
 		eng.Close()
 		res.Violate("write_after_recovery_failed", err.Error(), nil)
 		return
